@@ -35,6 +35,7 @@ import (
 	"math"
 	"os"
 	"regexp"
+	"runtime"
 	"sort"
 	"strconv"
 	"strings"
@@ -258,10 +259,12 @@ func (n *opNode) NeedsTable(ctx context.Context, uri string) (bool, error) {
 }
 func (n *opNode) UpdateRetainedCheckpoints(ctx context.Context, ids []uint64) error { return nil }
 
-type srNode struct{ proto.UnimplementedSourceRunner }
+type srNode struct {
+	proto.UnimplementedSourceRunner
+}
 
-func (*srNode) ID() string   { return "sr" }
-func (*srNode) Host() string { return "sr-host" }
+func (*srNode) ID() string                                                        { return "sr" }
+func (*srNode) Host() string                                                      { return "sr-host" }
 func (*srNode) Deploy(context.Context, *workerpb.DeploySourceRunnerRequest) error { return nil }
 
 type generation struct {
@@ -275,22 +278,22 @@ type generation struct {
 // ------------------------------------------------------------- replayer ----
 
 type run struct {
-	bi     int
-	in     *mbt.Input
-	res    *mbt.Result
-	dir    string
-	count  int
-	keys   [][]byte // subject key of k (1-based: keys[k-1])
-	keyNo  map[string]int
-	gens   []*generation // all generations stay referenced until the behaviour ends
-	cur    *generation
-	ckptID uint64
-	acks   []*snapshotpb.OperatorCheckpoint
-	rot    int // rotations the harness has caused so far (process-wide hook counters)
+	bi      int
+	in      *mbt.Input
+	res     *mbt.Result
+	dir     string
+	count   int
+	keys    [][]byte // subject key of k (1-based: keys[k-1])
+	keyNo   map[string]int
+	gens    []*generation // all generations stay referenced until the behaviour ends
+	cur     *generation
+	ckptID  uint64
+	acks    []*snapshotpb.OperatorCheckpoint
+	rot     int         // rotations the harness has caused so far (process-wide hook counters)
 	pending map[int]int // operator -> padded writes whose Flush step has not been reached yet
 	dbOf    map[int]*dkv.DB
-	failed bool
-	serial int
+	failed  bool
+	serial  int
 }
 
 func (r *run) violate(step int, what string, exp, obs any) {
@@ -388,6 +391,10 @@ func (r *run) deploy(step int, n int, regime string, st mbt.Step) bool {
 		r.violate(step, fmt.Sprintf("jobs.Assembly.Deploy of %d operators from checkpoint %d failed: %v", n, r.ckptID, err), nil, err.Error())
 		return false
 	}
+	if r.in.CfgBool("GC", false) {
+		// C09 arm: the replaced (halted) operators become garbage, as after a real redeploy; only storage keeps their work
+		r.gens = nil
+	}
 	r.gens = append(r.gens, g)
 	r.cur = g
 	r.pending, r.dbOf = map[int]int{}, map[int]*dkv.DB{}
@@ -437,6 +444,14 @@ func subset(a, b []int) bool {
 
 // readBack: every subject key through the handler of the operator the real key space routes it to
 func (r *run) readBack(step int, exp map[string]any, where string) bool {
+	if r.in.CfgBool("GC", false) {
+		// C09: collect every table object nothing refers to any more (its cleanup may delete the file, after asking
+		// the neighbouring operators) before reading everything back through every operator
+		for i := 0; i < 3; i++ {
+			runtime.GC()
+			time.Sleep(3 * time.Millisecond)
+		}
+	}
 	st := ints(exp["st"])
 	for k := 1; k <= len(r.keys); k++ {
 		key := r.keys[k-1]
